@@ -93,59 +93,7 @@ def run(ctx, rep):
 
     rule_index_seeding(ctx, rep, 'R11.h')
 
-    # ------------------------------------------------------------ R11.d loader continuity + checksum
-    rep.rule('R11.d', 'the loader pushes an entry only after index continuity and checksum equality were tested; the failing edges return an error', floor=2, analysis='A2+A3')
-    lb = ctx.fn_body(FILESTATE_LOAD)
-    pushes = [c for c in lb.calls if c.matches('std::vec::Vec::push') and is_user_call(c) and len(c.args) > 1
-              and expr_has_call(lb.expr_operand(c.args[1]), 'server::state::entry::StateEntry::new')]
-    if not pushes:
-        rep.anchor_lost('R11.d', 'Vec::push of a StateEntry in FileState::load_entries')
-    for p in pushes:
-        ck = None
-        for e, truth, lit in bool_literals_at(lb, p.bb):
-            if e[0] == 'bin' and e[1] in ('Ne', 'Eq'):
-                sides = [e[2], e[3]]
-                rec = [expr_has_call(s, 'StateEntry::calculate_checksum') for s in sides]
-                ff = [has_call_last(s, 'read_u32') and not expr_has_call(s, 'StateEntry::calculate_checksum') for s in sides]
-                if (rec[0] and ff[1]) or (rec[1] and ff[0]):
-                    ck = (e, truth)
-        ok = ck is not None and ((ck[0][1] == 'Ne' and ck[1] is False) or (ck[0][1] == 'Eq' and ck[1] is True))
-        rep.ob('R11.d', FILESTATE_LOAD, 'checksum-before-push', ok, p.where(),
-               'push is control-dependent on recomputed checksum == stored checksum' if ok else
-               'the push of a loaded entry is not control-dependent on (recomputed checksum == checksum read from the file)')
-    cont = None
-    for bb, t, e in switch_exprs(lb):
-        if t.get('ty') != 'bool' or e[0] != 'bin' or e[1] not in ('Ne', 'Eq'):
-            continue
-        for x, y in ((e[2], e[3]), (e[3], e[2])):
-            prev = is_plus_one(y)
-            if prev is not None and prev[0] == 'local' and has_call_last(x, 'read_u64'):
-                cont = (bb, t, e)
-    if cont is None:
-        rep.ob('R11.d', FILESTATE_LOAD, 'continuity-before-push', False, None, 'no comparison of the index read from the file with (previous index + 1) found in the loader')
-    else:
-        bb, t, e = cont
-        tt, tf = bool_targets(t)
-        bad = tt if e[1] == 'Ne' else tf
-        leak = bad is None or any(p.bb in lb.reachable(bad, avoid_blocks={bb}) for p in pushes)
-        reaches_err = bad is not None and any(eb in lb.reachable(bad, avoid_blocks={bb}) for eb, _ in err_exit_sites(lb))
-        # every path from the loop's index read to the push passes this test or the "first entry" bypass
-        rep.ob('R11.d', FILESTATE_LOAD, 'continuity-before-push', (not leak) and reaches_err, lb.where(bb),
-               'index read from the file is compared with previous+1; the mismatch edge returns an error and cannot reach the push' if (not leak and reaches_err) else
-               'the mismatch edge of the index continuity test %s' % ('reaches the push' if leak else 'does not return an error'))
-        # the only bypass of the test must be the first-entry guard (entries_count > 0 is false)
-        byp = [x for x in lb.pred(bb) if x in lb.reach]
-        while len(byp) == 1 and lb.term(byp[0]).get('t') in ('goto', 'call', 'assert', 'drop') and not any(u for u in lb.stmts(byp[0]) if lb.user_stmt(u) and u.get('lhs', [0])[0] in lb.varname and False):
-            nxt = [x for x in lb.pred(byp[0]) if x in lb.reach]
-            if lb.term(byp[0]).get('t') == 'switch':
-                break
-            byp = nxt
-        ok_byp = len(byp) == 1 and lb.term(byp[0]).get('t') == 'switch'
-        if ok_byp:
-            be = lb.expr_operand(lb.term(byp[0])['op'])
-            ok_byp = be[0] == 'bin' and be[1] in ('Gt', 'Ne', 'Ge') and be[2][0] == 'local' and (is_const(be[3], 0) or is_const(be[3], 1))
-        rep.ob('R11.d', FILESTATE_LOAD, 'continuity-bypass-only-first', ok_byp, lb.where(bb),
-               'the continuity test is skipped only for the first entry (counter > 0 guard)' if ok_byp else 'the continuity test can be bypassed by something other than the first-entry guard')
+    lb = rule_loader_checks(ctx, rep, 'R11.d')
 
     # ------------------------------------------------------------ R11.e checksum covers every serialised field
     rep.rule('R11.e', 'the checksum covers every serialised field: each parameter of calculate_checksum flows into the hashed buffer; apply hashes the clear command before encrypting; the loader hashes the decrypted command', floor=3, analysis='A9')
@@ -260,6 +208,64 @@ def run(ctx, rep):
             rep.ob('R11.g', d, 'flush-before-drop', bad is None, w.where(),
                    'write_all is followed by %s on every Ok path' % short(flushes[0].name) if bad is None else
                    bad + ': tokio::fs::File finishes the write in a background task after the handle is dropped, so two consecutive journal appends (each opening its own handle) can reach the file in the opposite order and a write error is lost')
+
+
+def rule_loader_checks(ctx, rep, rid):
+    # ------------------------------------------------------------ R11.d loader continuity + checksum
+    rep.rule(rid, 'the loader pushes an entry only after index continuity and checksum equality were tested; the failing edges return an error', floor=2, analysis='A2+A3')
+    lb = ctx.fn_body(FILESTATE_LOAD)
+    pushes = [c for c in lb.calls if c.matches('std::vec::Vec::push') and is_user_call(c) and len(c.args) > 1
+              and expr_has_call(lb.expr_operand(c.args[1]), 'server::state::entry::StateEntry::new')]
+    if not pushes:
+        rep.anchor_lost(rid, 'Vec::push of a StateEntry in FileState::load_entries')
+    for p in pushes:
+        ck = None
+        for e, truth, lit in bool_literals_at(lb, p.bb):
+            if e[0] == 'bin' and e[1] in ('Ne', 'Eq'):
+                sides = [e[2], e[3]]
+                rec = [expr_has_call(s, 'StateEntry::calculate_checksum') for s in sides]
+                ff = [has_call_last(s, 'read_u32') and not expr_has_call(s, 'StateEntry::calculate_checksum') for s in sides]
+                if (rec[0] and ff[1]) or (rec[1] and ff[0]):
+                    ck = (e, truth)
+        ok = ck is not None and ((ck[0][1] == 'Ne' and ck[1] is False) or (ck[0][1] == 'Eq' and ck[1] is True))
+        rep.ob(rid, FILESTATE_LOAD, 'checksum-before-push', ok, p.where(),
+               'push is control-dependent on recomputed checksum == stored checksum' if ok else
+               'the push of a loaded entry is not control-dependent on (recomputed checksum == checksum read from the file)')
+    cont = None
+    for bb, t, e in switch_exprs(lb):
+        if t.get('ty') != 'bool' or e[0] != 'bin' or e[1] not in ('Ne', 'Eq'):
+            continue
+        for x, y in ((e[2], e[3]), (e[3], e[2])):
+            prev = is_plus_one(y)
+            if prev is not None and prev[0] == 'local' and has_call_last(x, 'read_u64'):
+                cont = (bb, t, e)
+    if cont is None:
+        rep.ob(rid, FILESTATE_LOAD, 'continuity-before-push', False, None, 'no comparison of the index read from the file with (previous index + 1) found in the loader')
+    else:
+        bb, t, e = cont
+        tt, tf = bool_targets(t)
+        bad = tt if e[1] == 'Ne' else tf
+        leak = bad is None or any(p.bb in lb.reachable(bad, avoid_blocks={bb}) for p in pushes)
+        reaches_err = bad is not None and any(eb in lb.reachable(bad, avoid_blocks={bb}) for eb, _ in err_exit_sites(lb))
+        # every path from the loop's index read to the push passes this test or the "first entry" bypass
+        rep.ob(rid, FILESTATE_LOAD, 'continuity-before-push', (not leak) and reaches_err, lb.where(bb),
+               'index read from the file is compared with previous+1; the mismatch edge returns an error and cannot reach the push' if (not leak and reaches_err) else
+               'the mismatch edge of the index continuity test %s' % ('reaches the push' if leak else 'does not return an error'))
+        # the only bypass of the test must be the first-entry guard (entries_count > 0 is false)
+        byp = [x for x in lb.pred(bb) if x in lb.reach]
+        while len(byp) == 1 and lb.term(byp[0]).get('t') in ('goto', 'call', 'assert', 'drop') and not any(u for u in lb.stmts(byp[0]) if lb.user_stmt(u) and u.get('lhs', [0])[0] in lb.varname and False):
+            nxt = [x for x in lb.pred(byp[0]) if x in lb.reach]
+            if lb.term(byp[0]).get('t') == 'switch':
+                break
+            byp = nxt
+        ok_byp = len(byp) == 1 and lb.term(byp[0]).get('t') == 'switch'
+        if ok_byp:
+            be = lb.expr_operand(lb.term(byp[0])['op'])
+            ok_byp = be[0] == 'bin' and be[1] in ('Gt', 'Ne', 'Ge') and be[2][0] == 'local' and (is_const(be[3], 0) or is_const(be[3], 1))
+        rep.ob(rid, FILESTATE_LOAD, 'continuity-bypass-only-first', ok_byp, lb.where(bb),
+               'the continuity test is skipped only for the first entry (counter > 0 guard)' if ok_byp else 'the continuity test can be bypassed by something other than the first-entry guard')
+
+    return lb
 
 
 def rule_index_seeding(ctx, rep, rid):
